@@ -465,6 +465,17 @@ fn parse_body(block: &syn::Block) -> Body {
                     call_args: mc.args.iter().map(toks).collect(),
                 }
             }
+            Expr::Call(c) if matches!(toks(&c.func).as_str(), "::std::ptr::read" | "std::ptr::read" | "::core::ptr::read" | "core::ptr::read") && c.args.len() == 1 => {
+                // ::std::ptr::read(ADDR as *const Self)
+                if let Expr::Cast(cast) = &c.args[0] {
+                    if toks(&cast.ty) == "*const Self" {
+                        if let Some(a) = int_of(&cast.expr) {
+                            return Body::SingletonEnum { address: a as u128 };
+                        }
+                    }
+                }
+                other()
+            }
             Expr::Call(c) => {
                 // <Type>::func(args)
                 if let Expr::Path(p) = &*c.func {
